@@ -158,8 +158,8 @@ MANIFEST = {
                     "artifacts must pass its keccak pins), and the three leaf parsers; the 21 public inputs must be the statement in the stated order. "
                     "Completeness of the circuit itself on honest witnesses is also an invariant of Leaf.tla (HonestAccepted) and of LeafTrace.", note=_N),
         "C27": dict(engine="leafapi", ref="6.2", text="Merkle.tla: verify_with_positions as its guard sequence against the declarative Valid predicate, from_unsorted's "
-                    "domain, and agreement with the leaf circuit's tree walk (the Depth / Positions / RootBind actions of Leaf.tla); TLC over all 325 classes "
-                    "with MAX_DEPTH 16. Every class is realised as real 32-byte paths (non-canonical limbs p, p+1, 2^64-1; single corruptions) on the native API "
+                    "domain, and agreement with the leaf circuit's tree walk (the Depth / Positions / RootBind actions of Leaf.tla); TLC over all proof classes "
+                    "with MAX_DEPTH 16. Every class is realised as real 32-byte paths (non-canonical limbs p, p+1, 2^64-1, and near misses: the alias v+p of a genuine limb with the root of the genuine path, a non-canonical depth-0 leaf equal to the root; single corruptions) on the native API "
                     "and, for canonical paths, on the real leaf circuit inside a real statement: all three verdicts must agree with the model.", note=_N),
     },
 }
